@@ -471,10 +471,12 @@ C09(cfg, obs) ==
         um(m) == MemInst(cfg, obs, mine, m)
         tcall(u) == {j \in Calls(obs) : FromC(obs, j, u) /\ obs[j].t = "T"}
     IN
-    \* member k+1 is subscribed only from inside member k's completion
+    \* member k+1 is subscribed only after member k has completed (i.e. not before member k's
+    \* Terminate has been delivered to concat; the present code does it inside that delivery, a
+    \* refactoring that does it later is not flagged)
     UNION {
       (IF um(m) = "" THEN {} ELSE
-       IF um(m - 1) = "" \/ ~\E j \in tcall(um(m - 1)) : InsideP(nst.par, SubIdx(obs, um(m)), j)
+       IF um(m - 1) = "" \/ ~\E j \in tcall(um(m - 1)) : j < SubIdx(obs, um(m))
        THEN {W("C09", "eager_subscribe", SubIdx(obs, um(m)), um(m), cfg, "")} ELSE {})
       \cup
       \* a Pull that is being answered with the previous member's end is re-issued to the next member
